@@ -242,8 +242,8 @@ prop(
 
 prop(
     "C08",
-    level_text="Theorems for all states, operations, sink scripts and ring splits (no bound): every drain path feeds the hasher exactly the bytes it hands out; decode operations never touch the hasher; reset re-seeds it; hence after any interleaving of collect/read/collect_to_writer/decode_blocks/decode_from_to/StreamingDecoder::read the hasher input is the concatenation of everything delivered since the reset and get_calculated_checksum = low32(XXH64(seed 0)) of exactly those bytes; stated for an abstract streaming hash (only H(H(s,a),b)=H(s,a++b) is used); for every frame the Spec accepts and every documented program that finishes and drains it, calculated = low32(XXH64(content)) = the checksum stored in the frame (valid_frame_checksums_agree).",
-    engines=[{"name": "dec"}],
+    level_text="Theorems for all states, operations, sink scripts and ring splits (no bound): every drain path feeds the hasher exactly the bytes it hands out; decode operations never touch the hasher; reset re-seeds it; hence after any interleaving of collect/read/collect_to_writer/decode_blocks/decode_from_to/StreamingDecoder::read the hasher input is the concatenation of everything delivered since the reset and get_calculated_checksum = low32(XXH64(seed 0)) of exactly those bytes; stated for an abstract streaming hash (only H(H(s,a),b)=H(s,a++b) is used); for every frame the Spec accepts and every documented program that finishes and drains it, calculated = low32(XXH64(content)) = the checksum stored in the frame (valid_frame_checksums_agree).  Compressor side: for every input, source fragmentation, block encoder, matcher and compressor state (fresh or left by ANY reuse history) the four bytes after the last block are low32(XXH64(input)) (compressor_checksum_of_input; rests on the extracted facts that compress() re-seeds the hasher before reading and hashes exactly each block read).",
+    engines=[{"name": "dec"}, {"name": "enc"}],
     modelled=_FRAME_MODELLED,
     assumptions=["twox-hash's streaming XxHash64 equals one-shot XXH64 (cross-checked by the harness XXH64 on every delivered stream)", "Spec.Xxh64 is a faithful transcription of XXH64"],
 )
